@@ -1161,7 +1161,10 @@ def run(ctx):
     ]
     if not ok:
         return
+    import time
+    t_proof = time.time() - ctx.t0
     cases = collect(ctx)
+    t_impl = time.time() - ctx.t0 - t_proof
     np_terms, np_problems = next_path_cases()
     terms = []
     owner = []
@@ -1178,6 +1181,8 @@ def run(ctx):
         return
     ctx.coverage["traces_validated_against_impl"] = len(terms) - len(failing)
     ctx.coverage["exhaustive"] = True
+    ctx.notes.append("wall: proof stage %.0fs, implementation runs %.0fs, model evaluation in Coq (%d comparisons) %.0fs" % (
+        t_proof, t_impl, len(terms), time.time() - ctx.t0 - t_proof - t_impl))
     reported = report_property(ctx, cases)
     if np_problems and not reported:
         reported = True
